@@ -31,6 +31,7 @@ U == INSTANCE TierUniverse WITH N <- N, K <- K, LabelsU <- {"a", "b"}
 Narrow(t) == [t EXCEPT !.hi = IF t.ents = <<>> THEN N - 1 ELSE Max2(N - 1, IF t.kind = "I" THEN t.ents[Len(t.ents)].e ELSE t.ents[Len(t.ents)].t)]
 EditTgs == { MkTg(0, N, <<a, b>>) : a \in U!IvTiers("n1"), b \in U!PtTiers("n2") }
            \cup { MkTg(0, N, <<a, b>>) : a \in U!IvTiers("n1"), b \in { Narrow(x) : x \in U!IvTiers("n2") } }
+           \cup { MkTg(0, N, <<>>) }             \* no tiers: only the textgrid's own argument checks can reject a call
 ESeq == SetToSeq(EditTgs)
 MyEdit == { ESeq[i] : i \in { j \in 1..Len(ESeq) : j % NSlices = Slice } }
 \* second operands for appendTextgrid: equal, overlapping and disjoint name sets
@@ -79,7 +80,7 @@ DoEditTg == "editTg" \in Ops /\ \E o \in (-(N + 1))..2, m \in {"silence", "warni
 DoAppendTg == "appendTg" \in Ops /\ \E b \in Others, only \in BOOLEAN :
             Call("appendTg", [only |-> only], NoTier, b, AppendTg(tg, b, only), <<>>)
 DoMergeTg == "mergeTg" \in Ops /\ \E names \in {<<"n1", "n2">>, <<"n2", "n1">>, <<"n1">>}, p \in BOOLEAN :
-            LET ordered == [i \in Idx(names) |-> TierNamed(tg, names[i])]
+            LET ordered == IF \A i \in Idx(names) : HasName(tg, names[i]) THEN [i \in Idx(names) |-> TierNamed(tg, names[i])] ELSE <<>>
                 ivs == SelectSeq(ordered, LAMBDA t : t.kind = "I")
                 pts == SelectSeq(ordered, LAMBDA t : t.kind = "P")
                 fi == IF ivs = <<>> THEN <<>> ELSE LET u == UnionFold([st |-> "ok", tier |-> ivs[1]], Tail(ivs)) IN <<[st |-> u.st, ret |-> IF u.st = "ok" THEN u.tier ELSE NoTier]>>
